@@ -65,72 +65,121 @@ def _run_job(job):
         return {"harness_error": "%s: %s" % (type(e).__name__, e), "tb": traceback.format_exc()[-3000:]}
 
 
-def _serve_one(job, out):
-    wall_cap = float(job.get("wall_cap", 60))
-    r, w = os.pipe()
-    sys.stdout.flush()
-    pid = os.fork()
-    if pid == 0:
-        try:
-            os.close(r)
-            os.setpgid(0, 0)
-            import faulthandler
+def _read_exact(fd, n):
+    data = b""
+    while len(data) < n:
+        b = os.read(fd, n - len(data))
+        if not b:
+            return None
+        data += b
+    return data
 
-            faulthandler.enable()
-            res = _run_job(job)
-            data = json.dumps(res, default=str).encode()
-            off = 0
-            while off < len(data):
-                off += os.write(w, data[off : off + 65536])
-            os.close(w)
-        except BaseException:  # noqa: BLE001
-            try:
-                os.write(w, json.dumps({"harness_error": traceback.format_exc()[-3000:]}).encode())
-            except Exception:  # noqa: BLE001
-                pass
-        finally:
-            os._exit(0)
-    os.close(w)
-    chunks = []
+
+def _child_main(job_r, res_w):
+    """Runs in a fresh fork of the pristine fork server: read one job, execute it, answer."""
+    try:
+        os.setpgid(0, 0)
+        import faulthandler
+
+        faulthandler.enable()
+        hdr = _read_exact(job_r, 8)
+        job = json.loads(_read_exact(job_r, int.from_bytes(hdr, "big")).decode())
+        res = _run_job(job)
+        data = json.dumps(res, default=str).encode()
+    except BaseException:  # noqa: BLE001
+        data = json.dumps({"harness_error": traceback.format_exc()[-3000:]}).encode()
+    try:
+        data = len(data).to_bytes(8, "big") + data
+        off = 0
+        while off < len(data):
+            off += os.write(res_w, data[off : off + 65536])
+    finally:
+        os._exit(0)
+
+
+def _fork_server(ctrl_r, ack_w, job_r, res_w):
+    """The pristine process.  It never parses a job and does the same few system calls per job, so
+    that its heap - and therefore the memory image (object addresses included) every scenario
+    child starts from - does not depend on which or how many jobs were served before."""
+    while True:
+        b = os.read(ctrl_r, 1)
+        if not b or b == b"q":
+            return
+        pid = os.fork()
+        if pid == 0:
+            _child_main(job_r, res_w)
+        os.write(ack_w, b"p" + pid.to_bytes(8, "big"))
+        os.waitpid(pid, 0)
+        try:
+            os.killpg(pid, signal.SIGKILL)  # orphans of the child's process group
+        except Exception:  # noqa: BLE001
+            pass
+        os.write(ack_w, b"d")
+
+
+def _dispatch_one(job, out, ctrl_w, ack_r, job_w, res_r):
+    wall_cap = float(job.get("wall_cap", 60))
+    data = json.dumps(job).encode()
+    os.write(ctrl_w, b"j")
+    hdr = _read_exact(ack_r, 9)
+    pid = int.from_bytes(hdr[1:], "big")
+    payload = len(data).to_bytes(8, "big") + data
     deadline = seams.REAL["monotonic"]() + wall_cap
+    buf = b""
+    need = None
+    done = False
     timed_out = False
+    off = 0
     while True:
         left = deadline - seams.REAL["monotonic"]()
-        if left <= 0:
+        if left <= 0 and not timed_out:
             timed_out = True
-            break
-        rl, _, _ = select.select([r], [], [], min(left, 1.0))
-        if rl:
-            b = os.read(r, 1 << 16)
-            if not b:
-                break
-            chunks.append(b)
-    os.close(r)
-    if timed_out:
-        try:
-            os.killpg(pid, signal.SIGKILL)
-        except Exception:  # noqa: BLE001
             try:
-                os.kill(pid, signal.SIGKILL)
+                os.killpg(pid, signal.SIGKILL)
             except Exception:  # noqa: BLE001
-                pass
-    _, status = os.waitpid(pid, 0)
-    # reap any orphaned grandchildren in the child's process group
-    try:
-        os.killpg(pid, signal.SIGKILL)
-    except Exception:  # noqa: BLE001
-        pass
+                try:
+                    os.kill(pid, signal.SIGKILL)
+                except Exception:  # noqa: BLE001
+                    pass
+        wl = [job_w] if off < len(payload) and not timed_out else []
+        rl, wl2, _ = select.select([res_r, ack_r], wl, [], 1.0 if not timed_out else 5.0)
+        if job_w in wl2:
+            try:
+                off += os.write(job_w, payload[off : off + 32768])
+            except OSError:
+                off = len(payload)
+        if res_r in rl:
+            b = os.read(res_r, 1 << 16)
+            if b:
+                buf += b
+                if need is None and len(buf) >= 8:
+                    need = int.from_bytes(buf[:8], "big")
+        if ack_r in rl:
+            b = os.read(ack_r, 1)
+            if b == b"d" or not b:
+                done = True
+        if done:
+            # the child is gone: take whatever is still in the result pipe
+            while True:
+                r2, _, _ = select.select([res_r], [], [], 0)
+                if not r2:
+                    break
+                b = os.read(res_r, 1 << 16)
+                if not b:
+                    break
+                buf += b
+                if need is None and len(buf) >= 8:
+                    need = int.from_bytes(buf[:8], "big")
+            break
     if timed_out:
         reply = {"id": job.get("id"), "result": {"harness_error": "wall cap %.0fs exceeded" % wall_cap}}
-    else:
-        raw = b"".join(chunks)
+    elif need is not None and len(buf) >= 8 + need:
         try:
-            reply = {"id": job.get("id"), "result": json.loads(raw.decode())}
+            reply = {"id": job.get("id"), "result": json.loads(buf[8 : 8 + need].decode())}
         except Exception:  # noqa: BLE001
-            reply = {
-                "id": job.get("id"),
-                "result": {"harness_error": "child died (status %d) with %d bytes of output" % (status, len(raw))},
-            }
+            reply = {"id": job.get("id"), "result": {"harness_error": "unreadable result from the scenario child"}}
+    else:
+        reply = {"id": job.get("id"), "result": {"harness_error": "child died with %d bytes of output" % len(buf)}}
     out.write(json.dumps(reply) + "\n")
     out.flush()
 
@@ -140,16 +189,46 @@ def main():
     # anything the code under test prints must not corrupt the protocol
     devnull = os.open(os.devnull, os.O_WRONLY)
     os.dup2(devnull, 1)
+    ctrl_r, ctrl_w = os.pipe()
+    ack_r, ack_w = os.pipe()
+    job_r, job_w = os.pipe()
+    res_r, res_w = os.pipe()
+    pid = os.fork()
+    if pid != 0:
+        # this process stays pristine and only forks
+        for fd in (ctrl_w, ack_r, job_w, res_r, 0):
+            try:
+                os.close(fd)
+            except OSError:
+                pass
+        try:
+            _fork_server(ctrl_r, ack_w, job_r, res_w)
+        finally:
+            try:
+                os.waitpid(pid, 0)
+            except Exception:  # noqa: BLE001
+                pass
+        return
+    # the dispatcher: talks to the pool, never runs a scenario itself
+    for fd in (ctrl_r, ack_w, job_r, res_w):
+        os.close(fd)
     out.write(json.dumps({"ready": True, "pid": os.getpid()}) + "\n")
     out.flush()
-    for line in sys.stdin:
-        line = line.strip()
-        if not line:
-            continue
-        job = json.loads(line)
-        if job.get("quit"):
-            break
-        _serve_one(job, out)
+    try:
+        for line in sys.stdin:
+            line = line.strip()
+            if not line:
+                continue
+            job = json.loads(line)
+            if job.get("quit"):
+                break
+            _dispatch_one(job, out, ctrl_w, ack_r, job_w, res_r)
+    finally:
+        try:
+            os.write(ctrl_w, b"q")
+        except OSError:
+            pass
+        os._exit(0)
 
 
 if __name__ == "__main__":
